@@ -11,7 +11,7 @@ THEOREMS = ["Mesa.Signals." + t for t in (
     "C16_replica_all_histories", "C16_listener_receives_all", "C16_pi_independent",
     "C18_signals_reject_unchanged", "C18_signals_observe_reject_unchanged", "C18_signals_observe_rejects_exactly",
     "C18_signals_rejected_calls_can_be_deleted")]
-COUNTS = {"quick": 1500, "thorough": 40000}
+COUNTS = {"quick": 1500, "thorough": 150000}
 TRUSTED = [
     "CPython weakref: a handler dies exactly when the harness drops its last strong reference (refcounting)",
     "iteration order of the signal-type sets: pinned by substituting an insertion-ordered mapping (3/4 of the scenarios) or "
